@@ -213,8 +213,6 @@ def camxspecs(draw, formats=ALL_FORMATS, max_n=5, max_nz=5, max_steps=4,
         s['species'] = draw(species_names(draw(st.integers(1, max_spec))))
         s['name'] = draw(st.sampled_from(list(names))) if fmt == 'uamiv' \
             else 'BOUNDARY'
-        if s['name'] == 'EMISSIONS':
-            s['nz'] = 1
         if s['name'] == 'AIRQUALITY' and s['nsteps'] != 1:
             # initial-condition files hold one time
             s['nsteps'] = 1
